@@ -8,7 +8,7 @@ V = os.path.dirname(os.path.dirname(os.path.abspath(__file__)))
 ids = [json.loads(l)["id"] for l in open(os.path.join(V, "properties.jsonl"))]
 
 TECH = {
- "C01": ("runtime monitoring: per-item exactly-once counters + quiescence/stuck-witness watchdog over perturbed random workloads (incl. queues retargeted while in use, EINTR storm), directed failpoint schedules (redirected waiter, pending barrier); ASan with stack-use-after-return detection", "§5 C01, §13.2"),
+ "C01": ("runtime monitoring: per-item exactly-once counters + quiescence/stuck-witness watchdog over perturbed random workloads (incl. queues retargeted while in use, EINTR storm, stray futex wake-ups, dependent item pairs with a 2 s stuck rule), directed failpoint schedules (redirected waiter, pending barrier); ASan with stack-use-after-return detection", "§5 C01, §13.2"),
  "C02": ("runtime monitoring: offline interval-overlap and real-time FIFO checker over call/return/start/end stamps (incl. the thread-bound main queue drained by eventfd wake-ups + _dispatch_main_queue_callback_4CF); lost-update counter; ThreadSanitizer on plain per-queue memory", "§5 C02, §13.2"),
  "C03": ("runtime monitoring: interval-overlap checker keyed by hierarchy bottom, per-queue FIFO, gate scenario; ThreadSanitizer", "§5 C03"),
  "C04": ("runtime monitoring: reader/writer overlap + barrier-ordering checker over stamps; torn-write words; ThreadSanitizer", "§5 C04"),
